@@ -216,7 +216,7 @@ func parent(ck *checks.Check, tier string, dl time.Duration) int {
 
 	replayDir := filepath.Join(verifDir, "replays", ck.ID)
 	os.RemoveAll(replayDir)
-	nviol := 0
+	nviol, unconfirmed, examined := 0, 0, 0
 	seenKey := map[string]bool{}
 	for _, f := range mine {
 		if seenKey[f.Key] {
@@ -227,29 +227,43 @@ func parent(ck *checks.Check, tier string, dl time.Duration) int {
 			fmt.Printf("KNOWN-FINDING: property=%s %s: %s\n", ck.ID, f.Key, what)
 			continue
 		}
-		// re-execute 5 times before believing it
-		if !ck.Serial || checks.Evaluators[f.Case.Fam] != nil {
-			okAll := true
-			for k := 0; k < 5; k++ {
-				if !reproduces(ck, &f) {
-					okAll = false
-					break
-				}
+		// re-execute 5 times, each in a fresh process, before believing it; a finding that only
+		// shows after the calls that preceded it in its shard is replayed with that history
+		alone, withHist := reproduces(self, ck, &f, false), false
+		if !alone && len(f.History) > 0 {
+			withHist = reproduces(self, ck, &f, true)
+		}
+		if !alone && !withHist {
+			// state leaked into this case from calls older than the recorded history (or the case
+			// is flaky): not believed on its own; another finding must confirm the violation
+			unconfirmed++
+			if unconfirmed <= 5 {
+				fmt.Fprintf(os.Stderr, "unconfirmed finding (did not reproduce in a fresh process, alone or after its %d preceding calls): %s: %s\n", len(f.History), f.Key, firstLines(f.Msg, 2))
 			}
-			if !okAll {
-				fmt.Fprintf(os.Stderr, "CHECK-BROKEN: finding %s did not reproduce on re-execution: %s\n", f.Key, f.Msg)
-				return 2
+			if examined++; examined > 60 {
+				break
 			}
+			continue
+		}
+		if alone {
+			f.History = nil
+		} else {
+			f.NeedHistory = true
+			f.Msg += fmt.Sprintf("\n  history-dependent: reproduces only after the %d preceding calls of the same process (recorded in the replay file)", len(f.History))
 		}
 		nviol++
 		if nviol > 12 {
-			continue
+			break
 		}
 		os.MkdirAll(replayDir, 0o755)
 		p := filepath.Join(replayDir, fmt.Sprintf("%03d.json", nviol))
 		core.WriteJSON(p, f)
 		fmt.Printf("VIOLATION property=%s replay=%s\n", ck.ID, p)
 		fmt.Printf("  case: %s\n  what: %s\n", f.Key, firstLines(f.Msg, 6))
+	}
+	if nviol == 0 && unconfirmed > 0 {
+		fmt.Fprintf(os.Stderr, "CHECK-BROKEN: %d findings were recorded but none reproduces in a fresh process\n", unconfirmed)
+		return 2
 	}
 	if extra := int(total.NFindings) - len(total.Findings); extra > 0 {
 		fmt.Printf("  (%d further findings were not kept)\n", extra)
@@ -312,16 +326,33 @@ func gomaxprocs(ck *checks.Check, n int) string {
 	return "2"
 }
 
-func reproduces(ck *checks.Check, f *core.Finding) bool {
-	ctx := &core.Ctx{ID: ck.ID, Tier: "replay", Shard: 0, NShards: 1, R: core.NewReport()}
-	cs := f.Case
-	checks.Exec(ctx, &cs)
-	for _, g := range ctx.R.Findings {
-		if g.Prop == f.Prop {
-			return true
+// reproduces re-executes a finding five times, each time in a fresh process
+// (explorer --replay), optionally preceded by its recorded history.
+func reproduces(self string, ck *checks.Check, f *core.Finding, withHistory bool) bool {
+	g := *f
+	g.NeedHistory = withHistory
+	if !withHistory {
+		g.History = nil
+	}
+	tmp, err := os.CreateTemp(filepath.Dir(self), "repro*.json")
+	if err != nil {
+		return false
+	}
+	tmp.Close()
+	defer os.Remove(tmp.Name())
+	if core.WriteJSON(tmp.Name(), g) != nil {
+		return false
+	}
+	for k := 0; k < 5; k++ {
+		cmd := exec.Command(self, ck.ID, "--replay", tmp.Name())
+		cmd.Env = os.Environ()
+		err := cmd.Run()
+		ee, ok := err.(*exec.ExitError)
+		if !ok || ee.ExitCode() != 1 {
+			return false
 		}
 	}
-	return false
+	return true
 }
 
 func doReplay(ck *checks.Check, path string) int {
@@ -336,6 +367,13 @@ func doReplay(ck *checks.Check, path string) int {
 		return 2
 	}
 	ctx := &core.Ctx{ID: ck.ID, Tier: "replay", Shard: 0, NShards: 1, R: core.NewReport()}
+	if f.NeedHistory {
+		for i := range f.History {
+			h := f.History[i]
+			checks.Exec(ctx, &h)
+		}
+		ctx.R = core.NewReport() // only the verdict on the final case counts
+	}
 	cs := f.Case
 	checks.Exec(ctx, &cs)
 	hit := false
